@@ -30,7 +30,7 @@ REVERTS = [
     ('F30-fill-buffer-interrupted', 'c218117', {'C09': ['S09-5:fill-retries-interrupted']}),
     ('F31-dearmor-partial-header', '177d538', {'C09': ['S09-7:partial-buffer-verdict'], 'C10': ['S09-7:partial-buffer-verdict']}),
     ('F32-lock-accepts-what-unlock-refuses', '7b8a27e', {'C08': ['lock-unlock:']}),
-    ('F33-armor-header-key-line-bounded', '1a40f05', {'C10': ['S10-6:header-key-line-bounded']}),
+    ('F33-armor-header-key-line-bounded', '9ce8d9a,1a40f05', {'C10': ['S10-6:header-key-line-bounded']}),
     ('F23-boolean-subpackets', '1b5ba7a', {'C05': ['S05-8:lossless-bool'], 'C02': ['S05-8:lossless-bool']}),
 ]
 tests = [dict(name='revert:' + n, kind='revert-fix', commit=c, expect=e) for n, c, e in REVERTS]
